@@ -264,6 +264,11 @@ def h_reject(base, how):
         g1 = gbx.GeoBox((ny1, nx1), A * Affine.translation(tx, ty_) * Affine.scale(rconst(F(1)), rconst(F(-1))), "epsg:3857")
     elif how == "rotate":
         g1 = gbx.GeoBox((ny1, nx1), A * Affine.translation(tx, ty_) * Affine(rconst(F(3, 5)), rconst(F(-4, 5)), 0.0, rconst(F(4, 5)), rconst(F(3, 5)), 0.0), "epsg:3857")
+    elif how == "shear":
+        # same pixel size along both axes, whole-pixel offset, but sheared by any amount beyond round-off
+        b = Real("shear")
+        assume(abs(b) >= F(1, 10**6))
+        g1 = gbx.GeoBox((ny1, nx1), A * Affine.translation(tx, ty_) * Affine(rconst(F(1)), b, 0.0, 0.0, rconst(F(1)), 0.0), "epsg:3857")
     elif how == "crs":
         g1 = gbx.GeoBox((ny1, nx1), A * Affine.translation(tx, ty_), "epsg:32633")
     elif how == "crs_none":
@@ -456,8 +461,8 @@ OBLIGATIONS = [
        functions=("odc.geo.geobox.geobox_intersection_conservative", "odc.geo.geobox.GeoBox.overlap_roi", "odc.geo.geobox.bounding_box_in_pixel_domain"), stubs=("numpy.isclose model",), **FB),
     Ob("S2_assoc", h_assoc, tiered([dict(base="north_up", op="union"), dict(base="rotated", op="intersection")], [dict(base=b, op=o) for b in BT for o in ("union", "intersection")]),
        descr="union/intersection associative over three GeoBoxes; list forms agree", functions=("odc.geo.geobox.geobox_union_conservative", "odc.geo.geobox.geobox_intersection_conservative"), **FB),
-    Ob("S3_reject", h_reject, tiered([dict(base="north_up", how=h) for h in ("subpixel", "scale", "scale_near", "flip", "rotate", "crs", "crs_none")] + [dict(base="rotated", how="subpixel")],
-                                      [dict(base=b, how=h) for b in BT for h in ("subpixel", "scale", "scale_near", "flip", "rotate", "crs", "crs_none")]),
+    Ob("S3_reject", h_reject, tiered([dict(base="north_up", how=h) for h in ("subpixel", "scale", "scale_near", "flip", "rotate", "shear", "crs", "crs_none")] + [dict(base="rotated", how="subpixel"), dict(base="rotated", how="shear")],
+                                      [dict(base=b, how=h) for b in BT for h in ("subpixel", "scale", "scale_near", "flip", "rotate", "shear", "crs", "crs_none")]),
        descr="sub-pixel offset beyond the tolerance, other pixel size, flipped/rotated partner, other CRS => ValueError from |, &, overlap_roi, snap_to",
        functions=("odc.geo.geobox.pixel_translation", "odc.geo.geobox.bounding_box_in_pixel_domain"), stubs=("numpy.isclose model",), **FB),
     Ob("S4_enclosing", h_enclosing, tiered([dict(base=b) for b in ("north_up", "mirrored", "rotated")] + [dict(base="rotated", region="triangle"), dict(base="sheared", region="triangle")],
